@@ -3,3 +3,23 @@ claim('C15', 'CBMC bounded symbolic execution of legal_path/check_valid_path and
       'Solver-decided (SAT, all inputs within bounds): the real path filter accepts no absolute path and no path with a ".." component for every string up to the stated length; counterexamples are replayed natively.',
       'Bounds: path length <= 6 (quick) / 9 (thorough). Stubs: logging off, strstr reference model. Host FS semantics and symlinks outside the claim.',
       'DESIGN.md 5/C15')
+claim('C13', 'CBMC inductive step of the real telnet decoder copy_chars (1 byte from any state; 2-3 byte split equivalence)',
+      'Solver-decided over all decoder states and input bytes: memory safety, state invariant, <=3 output bytes per input byte, no negotiation byte in command text; split invariance of the decoder for 2 (quick) / 3 (thorough) bytes. Inductive, so byte streams of any length are covered for the decoder.',
+      'Output path and LPC applies are counting stubs; reader (get_user_data) segmentation and line editing are covered only as far as the listed harnesses go. unions compiled as structs in the CBMC encoding (DESIGN Corrections 1).',
+      'DESIGN.md 5/C13')
+claim('C10', 'CBMC lemmas over a ghost due-time on the real timing wheel (insert, sweep, re-entrant sweep, query/cancel)',
+      'Solver-decided single operations from arbitrary wheel states: new_call_out places the entry exactly at current_time+max(delay,1) for all delays in [-2,97]; call_out() fires exactly the due entries once, in order, dropping destructed owners, with error branches; re-entrant insert/remove/find from inside a callback; remove/find report due-now. Induction over operations gives histories of any length within the state bounds.',
+      'States: <=3 entries in the swept slot + 1 elsewhere, deltas <= 3 (6), two concrete slot pairs (4 in thorough), string-named call_outs without arguments; free-list refill cut.',
+      'DESIGN.md 5/C10')
+claim('C16', 'CBMC on real save_svalue/svalue_save_size/parse_numeric/restore_string/restore_svalue: windows of int64, all short strings, arbitrary damaged text per first-byte class',
+      'Solver-decided: sizing vs bytes written and exact round trip for integers in windows around every width/digit boundary and for every string up to 3 (5) bytes; restore of arbitrary text after each first-byte class is memory safe, returns success or a ROB error, leaves the parser state idle and the next restore unaffected.',
+      'Integers are covered in windows (stated in evidence), not the full 2^64 range in one query; floats, mappings and atomic-save crash points are not yet covered by this tree.',
+      'DESIGN.md 5/C16')
+claim('C19', 'CBMC on real async_runtime_epoll.c with a kernel-semantics eventfd model; real async_queue.c one-operation contract with ghost lock (sequentialisation)',
+      'Solver-decided: any <=2 (3) posts before a wait vs the delivered events; queue operations from an arbitrary valid ring for each overflow policy incl. consumer activity while a writer is blocked; lock discipline.',
+      'timer.cpp / sync.cpp (C++) and the pthread worker are not encoded; mutual exclusion of the mutex is trusted; no weak-memory reasoning.',
+      'DESIGN.md 5/C19')
+claim('C07', 'CBMC on real apply_low/find_function with names at fixed addresses: 2-call histories vs a reference resolver and visibility table',
+      'Solver-decided for all flag combinations and caller kinds: the second call outcome (runs / refused, program, index, offsets, object) equals the reference for (program, name, caller kind) alone, for every earlier call incl. refused ones; flat and one-level inherited programs.',
+      'Function tables are assumed to satisfy the documented invariants (compiler side outside); frames/bytecode execution are recording stubs; cache starts empty.',
+      'DESIGN.md 5/C07')
